@@ -15,7 +15,11 @@ Lemma consts_tie :
   /\ (R2_HOUR_MIN, R2_HOUR_MAX, R2_MINUTE_MIN, R2_MINUTE_MAX, R2_SECOND_MIN, R2_SECOND_MAX) = (2, 2, 2, 2, 2, 2)
   /\ (R2_WEEKDAY_SEP, R2_TIME_SEP1, R2_TIME_SEP2, R2_MONTH_ADD) = (44, 58, 58, 1)
   /\ (W2_YEAR_LO, W2_YEAR_HI, W2_DAY_PAD_BELOW, W2_LEAP_DIV, W2_YEAR_DIV, W2_YEAR_MOD) = (0, 9999, 10, 1000000000, 100, 100)
-  /\ (W2_OF_PRECISION, W2_OF_COLONS, W2_OF_ALLOW_ZULU, W2_OF_PADDING) = (1, 0, 0, 1).
+  /\ (W2_OF_PRECISION, W2_OF_COLONS, W2_OF_ALLOW_ZULU, W2_OF_PADDING) = (1, 0, 0, 1)
+  /\ R2_SECOND_TRIM = 1
+  (* the military letters of RFC 2822 section 4.3: A-I and K-Z (Z is in the name table), either case *)
+  /\ TZ2822_MILITARY = [(97, 105); (107, 121); (65, 73); (75, 89)]
+  /\ map snd TZ2822_NAMES = [0; 0; 0; -4; -5; -5; -6; -6; -7; -7; -8].
 Proof. repeat split; reflexivity. Qed.
 
 (** * The year-length rule *)
